@@ -237,6 +237,12 @@ impl<K: Kit> MonGoal<K> {
         })
     }
     pub fn pure_satisfied(&self, s: &K::S) -> bool {
+        if let Some((i, lo, hi)) = self.spec.window {
+            let f = K::flat(s);
+            if !(lo <= f[i] && f[i] <= hi) {
+                return false;
+            }
+        }
         !self.never && self.sp.distance(s, &self.centre) <= self.spec.radius
     }
 }
